@@ -400,6 +400,7 @@ type verifSub struct {
 
 var verifSeq int64
 
+// (not used any more: since reload releases c.lock before waiting for the watch group no quiescence is needed)
 // verifQuiet waits until every watchStream goroutine of the cluster is parked in its select: a stream goroutine that
 // has taken a response (even the empty barrier) but has not finished handleWatchEvents must not meet a reload,
 // which waits for the watch group while HOLDING c.lock (registry.go:125-129) -- see the "reload_race" event.
@@ -650,10 +651,6 @@ func verifRunCase(raw json.RawMessage) any {
 				if !watching {
 					break
 				}
-				if !verifQuiet(cl) {
-					stuck = "watch streams do not come to rest"
-					break
-				}
 				etcd.mu.Lock()
 				etcd.failing = ev.Fail
 				f0 := etcd.failed
@@ -684,23 +681,26 @@ func verifRunCase(raw json.RawMessage) any {
 				}
 				stuck = finishReload(opened0)
 			case "reload_race":
-				// PROBE (not generated): a watch response is taken by its stream goroutine while reload is about to take
-				// c.lock. reload then holds the lock across watchGroup.Wait() and the stream goroutine waits for the lock
-				// in handleWatchEvents. The driver forces the order by holding the lock while both queue up on it.
-				if !watching || !verifQuiet(cl) {
+				// a watch response is taken by its stream goroutine while reload is about to take c.lock: the driver forces
+				// the order by holding the lock while both queue up on it (reload first). reload must not wait for the
+				// watch group while it holds the lock (D23: the stream goroutine waits for that lock in handleWatchEvents).
+				if !watching {
 					break
 				}
 				live := etcd.live()
 				if len(live) == 0 {
 					break
 				}
+				time.Sleep(5 * time.Millisecond) // the barrier response of the previous event has been dealt with by now
 				cl.lock.Lock()
 				go cl.reload(EtcdClient(etcd))
 				time.Sleep(10 * time.Millisecond) // reload is the first waiter
-				if !live[len(live)-1].send(clientv3.WatchResponse{}) {
-					stuck = "watch stream not read"
+				select {
+				case live[len(live)-1].ch <- clientv3.WatchResponse{}:
+					time.Sleep(10 * time.Millisecond) // the stream goroutine queues behind it
+				case <-time.After(200 * time.Millisecond):
+					// the stream goroutine is itself waiting for the lock already: it is queued before reload
 				}
-				time.Sleep(10 * time.Millisecond) // the stream goroutine queues behind it
 				cl.lock.Unlock()
 				if stuck == "" {
 					stuck = finishReload(opened0)
